@@ -705,4 +705,19 @@ example :
   intro a b op op' h h' hk
   rcases h with rfl | rfl <;> rcases h' with rfl | rfl <;> first | rfl | (exact absurd hk (by decide))
 
+/-! ### the provider's `requests` auth object and the body serializer -/
+
+/-- **A `requests` auth object registered with `set_from_requests` reaches the request whatever the body serializer
+    returns** (no body, `data=`, `json=`, `files=`, extra headers, even an `auth` entry of its own): `case._auth` is written
+    into the keyword arguments after the serializer's result. -/
+theorem requests_auth_reaches_request (ser : Option Dict) (a : String) :
+    dlookup authKey (transportExtra .serializerThenAuth ser (some a)) = some a := by
+  simp only [transportExtra]
+  exact lookup_set_same _ authKey a
+
+/-- filled in the other order the credentials are lost for every request that has a body -/
+theorem requests_auth_other_order_full_false :
+    dlookup authKey (transportExtra .authThenSerializer (some [("data".toList, "x")]) (some "basic")) = none ∧
+    dlookup authKey (transportExtra .authThenSerializer none (some "basic")) = some "basic" := by decide
+
 end SV.Props.C14
